@@ -12,18 +12,20 @@ Local Open Scope Z_scope.
 Lemma hh_with_b_id s : with_b s (hb s) = s.
 Proof. destruct s; reflexivity. Qed.
 
-Lemma hh_add_hybrid_ref s pe id po gs gh pt mac efi g :
-  snd (hstep_add_hybrid s pe id po gs gh pt mac efi g) = Ref ->
-  fst (hstep_add_hybrid s pe id po gs gh pt mac efi g) = s.
+Lemma hh_add_hybrid_ref fp s pe id po gs gh pt mac efi g :
+  snd (hstep_add_hybrid_gen fp s pe id po gs gh pt mac efi g) = Ref ->
+  fst (hstep_add_hybrid_gen fp s pe id po gs gh pt mac efi g) = s.
 Proof.
-  unfold hstep_add_hybrid.
+  unfold hstep_add_hybrid_gen.
   destruct (bboot (hb s)) as [b|]; [|reflexivity].
   destruct (negb _); [reflexivity|].
   destruct (match efi with Some e => if negb e && mac then None else Some e | None => Some mac end) as [e|];
     [|reflexivity].
   destruct (e && _); [reflexivity|]. destruct (mac && _); [reflexivity|].
+  destruct (fp && _); [reflexivity|].
   destruct (binos b) as [|i r]; [reflexivity|].
   destruct (negb (mem i (hsigs s))); [reflexivity|].
+  destruct (fp && _); [reflexivity|].
   destruct (hy_new _ _ _ _ _ _ _ _ _ _); [discriminate|reflexivity].
 Qed.
 
